@@ -14,6 +14,8 @@ import (
 
 	gocache "github.com/patrickmn/go-cache"
 	corev1 "k8s.io/api/core/v1"
+	metav1 "k8s.io/apimachinery/pkg/apis/meta/v1"
+	"k8s.io/apimachinery/pkg/util/sets"
 	sigyaml "sigs.k8s.io/yaml"
 
 	slov1alpha1 "github.com/koordinator-sh/koordinator/apis/slo/v1alpha1"
@@ -1015,9 +1017,34 @@ func TestVerifC18Pools(t *testing.T) {
 			}
 			counted := map[*c18Pod]bool{}
 			seenNodeInSeg := map[int]int{} // node -> number of segments that evicted from it
+			minIdx := 0
 			for _, sg := range segs {
 				segNodes := map[int]bool{}
 				movedHere := [2]map[int]bool{{}, {}}
+				// which pool-shaped groups of the document can have issued this segment: the pools run in document order
+				// (implicit default pool first), each at most once, and a pool only takes nodes its selector matches
+				var cands []grp
+				first := -1
+				for gi, g := range groups {
+					if gi < minIdx {
+						continue
+					}
+					ok := true
+					for _, id := range sg.ids {
+						ok = ok && (!g.p.hasSel || c18mMatches(g.p, labs[int(id)]))
+					}
+					if ok {
+						cands = append(cands, g)
+						if first < 0 {
+							first = gi
+						}
+					}
+				}
+				if first >= 0 {
+					minIdx = first + 1
+				} else {
+					cands = groups // the order premise does not hold (reported by the config harness): any group that matches the node
+				}
 				for _, e := range sg.body {
 					if e.kind != 3 {
 						continue
@@ -1037,12 +1064,12 @@ func TestVerifC18Pools(t *testing.T) {
 						}
 					}
 					if abnEff >= 2 && overRounds[nd.id] <= abnEff-1 && overRounds[nd.id] >= 1 {
-						// anomaly gating over several pools: the detectors are shared by all pools (keyed by node name) and a pool
-						// that leaves through the "nobody anomalous yet" exit does not mark its nodes processed, so overlapping pools
-						// give ONE abnormal mark PER POOL per Balance call.  Recorded as a tag; a failure only on request
-						// (VERIF_C18_MP_ANOMALY=1), see props/C18.json level_note.
+						// anomaly gating over several pools: the detectors are shared by all pools (keyed by node name); before fix
+						// 3c8e41b a pool that left through the "nobody anomalous yet" exit did not mark its nodes processed, so
+						// overlapping pools gave ONE abnormal mark PER POOL per Balance call (VERIF_C18_MP_ANOMALY=0 turns the
+						// failure into a tag)
 						h.Tag("anomaly:evicted-after-fewer-over-threshold-rounds-than-required(marks-per-pool)")
-						if os.Getenv("VERIF_C18_MP_ANOMALY") == "1" {
+						if os.Getenv("VERIF_C18_MP_ANOMALY") != "0" {
 							h.Fail("C18:anomaly-marked-once-per-pool", "round %d: pod %d evicted from node %d which was over a high threshold that applies to it in only %d Balance call(s) so far; consecutiveAbnormalities=%d for every pool (overlapping pools mark the shared detector once each per call)",
 								rd, p.id, nd.id, overRounds[nd.id], abnEff)
 						}
@@ -1052,7 +1079,7 @@ func TestVerifC18Pools(t *testing.T) {
 					}
 					justified, unknown, nodeLevelSource := false, false, false
 					var highs []string
-					for _, g := range groups {
+					for _, g := range cands {
 						if g.p.hasSel && !c18mMatches(g.p, labs[nd.id]) {
 							continue
 						}
@@ -1156,4 +1183,182 @@ func c18mPairwiseDisjoint(c *c18mCfg) bool {
 		seen[g.sel[0][1]] = true
 	}
 	return true
+}
+
+// TestVerifC18ConfigExhaustive (thorough tier): EXHAUSTIVE small scope for defaulting + conversion of one nodePools entry
+// against the top level: low / high maps of both in {absent, empty, {cpu: v}}, anomaly condition of both in
+// {absent, {}, {norm}, {abn}, {abn, norm}}, weights of both in {absent, empty, {cpu: 0}}, the entry's selector in
+// {absent, empty, one label}.
+func TestVerifC18ConfigExhaustive(t *testing.T) {
+	h := vOpen("C18")
+	if h == nil {
+		t.Skip("VERIF_OUT not set")
+	}
+	maps := func(k int, v int64) map[int]int64 {
+		switch k {
+		case 0:
+			return nil
+		case 1:
+			return map[int]int64{}
+		}
+		return map[int]int64{0: v}
+	}
+	conds := [][2]int{{-1, -1}, {0, 0}, {0, 1}, {2, 0}, {2, 1}}
+	wts := func(k int) map[int]int64 {
+		switch k {
+		case 0:
+			return nil
+		case 1:
+			return map[int]int64{}
+		}
+		return map[int]int64{0: 0}
+	}
+	dims := []int{3, 3, 3, 3, 5, 5, 3, 3, 3}
+	n := 1
+	for _, d := range dims {
+		n *= d
+	}
+	for idx := 0; idx < n; idx++ {
+		r := h.Begin(idx)
+		if r == nil {
+			continue
+		}
+		x := idx
+		var v [9]int
+		for i, d := range dims {
+			v[i] = x % d
+			x /= d
+		}
+		c := c18mCfg{dry: -1, non: -1, nodeFit: -1, exp: -1, yaml: idx%2 == 1}
+		c.top = c18mPool{dev: -1, abn: conds[v[4]][0], norm: conds[v[4]][1], wts: wts(v[6])}
+		c.top.pct[0], c.top.pct[1] = maps(v[0], 100), maps(v[1], 200)
+		p := c18mPool{name: 1, abn: conds[v[5]][0], norm: conds[v[5]][1], wts: wts(v[7])}
+		p.pct[0], p.pct[1] = maps(v[2], 120), maps(v[3], 180)
+		switch v[8] {
+		case 1:
+			p.hasSel = true
+		case 2:
+			p.hasSel, p.sel = true, [][2]int{{0, 1}}
+		}
+		c.pools = []c18mPool{p}
+		c18mEmitCfg(h, &c)
+		h.Op("mconv")
+		doc, err := c18mDoc(&c)
+		if err != nil {
+			t.Fatalf("case %d: building the document: %v", idx, err)
+		}
+		args, err := c18mDecode(doc)
+		if err != nil {
+			h.Obs("decode-error")
+			h.End()
+			continue
+		}
+		c18mObserveArgs(h, args)
+		valid := validation.ValidateLowLoadUtilizationArgs(nil, args) == nil
+		h.Obs("cvalid %d", vB(valid))
+		c18mConfigOracle(h, &c, args)
+		h.Tag(fmt.Sprintf("valid:%d", vB(valid)))
+		h.Nontrivial()
+		h.End()
+	}
+	h.Close("EXHAUSTIVE: top level x one nodePools entry: low / high maps each absent / empty / {cpu}, anomaly condition each absent / {} / {norm} / " +
+		"{abn} / {abn, norm}, weights each absent / empty / {cpu: 0}, the entry's selector absent / empty / one label; JSON and YAML alternate; every case non-trivial")
+}
+
+// TestVerifC18FilterNodesExhaustive: EXHAUSTIVE small scope for filterNodes: 3 nodes with labels in
+// {none, k0=v0, k0=v1, k0=v0+k1=v0} x selector in {nil, empty, k0=v0, k0=v1, k1=v0, k0=v0+k1=v0} x every processed set.
+func TestVerifC18FilterNodesExhaustive(t *testing.T) {
+	h := vOpen("C18")
+	if h == nil {
+		t.Skip("VERIF_OUT not set")
+	}
+	labSets := [][][2]int{{}, {{0, 0}}, {{0, 1}}, {{0, 0}, {1, 0}}}
+	sels := [][][2]int{nil, {}, {{0, 0}}, {{0, 1}}, {{1, 0}}, {{0, 0}, {1, 0}}}
+	n := 4 * 4 * 4 * len(sels) * 8
+	for idx := 0; idx < n; idx++ {
+		r := h.Begin(idx)
+		if r == nil {
+			continue
+		}
+		x := idx
+		var nodes []*corev1.Node
+		var labs [3][][2]int
+		for i := 0; i < 3; i++ {
+			labs[i] = labSets[x%4]
+			x /= 4
+			nd := &corev1.Node{}
+			nd.Name = fmt.Sprintf("n%d", i)
+			nd.Labels = map[string]string{"other": "x"}
+			for _, kv := range labs[i] {
+				nd.Labels[fmt.Sprintf("c18k%d", kv[0])] = fmt.Sprintf("v%d", kv[1])
+			}
+			nodes = append(nodes, nd)
+			h.Op("nlab %d %s", i, c18mSelToks(labs[i]))
+		}
+		si := x % len(sels)
+		x /= len(sels)
+		var proc []int64
+		processed := map[string]bool{}
+		for i := 0; i < 3; i++ {
+			if x&(1<<i) != 0 {
+				proc = append(proc, int64(i))
+				processed[fmt.Sprintf("n%d", i)] = true
+			}
+		}
+		selTok := "-1"
+		pool := c18mPool{}
+		if si > 0 {
+			pool.hasSel, pool.sel = true, sels[si]
+			selTok = c18mSelToks(sels[si])
+		}
+		h.Op("fnodes %d %s %s", len(proc), vInts(proc), selTok)
+		var sel *metav1.LabelSelector
+		if si > 0 {
+			sel = &metav1.LabelSelector{}
+			if len(sels[si]) > 0 {
+				sel.MatchLabels = map[string]string{}
+				for _, kv := range sels[si] {
+					sel.MatchLabels[fmt.Sprintf("c18k%d", kv[0])] = fmt.Sprintf("v%d", kv[1])
+				}
+			}
+		}
+		ps := sets.NewString()
+		for k := range processed {
+			ps.Insert(k)
+		}
+		got, err := filterNodes(sel, nodes, ps)
+		if err != nil {
+			h.Obs("fn-error")
+			h.End()
+			continue
+		}
+		var ids []int64
+		for _, nd := range got {
+			var id int
+			fmt.Sscanf(nd.Name, "n%d", &id)
+			ids = append(ids, int64(id))
+		}
+		h.Obs("fn %s", vInts(ids))
+		// oracle: a node already balanced in this Balance call is never handed to another pool; only matching nodes are
+		for _, id := range ids {
+			if processed[fmt.Sprintf("n%d", id)] {
+				h.Fail("C18:pool-takes-processed-node", "filterNodes hands node %d to a pool (selector nil: %v) although it is in processedNodes", id, si == 0)
+			}
+			lab := map[int]int{}
+			for _, kv := range labs[id] {
+				lab[kv[0]] = kv[1]
+			}
+			if !c18mMatches(&pool, lab) {
+				h.Fail("C18:pool-takes-unselected-node", "filterNodes hands node %d to a pool whose selector does not match its labels", id)
+			}
+		}
+		h.Tag(fmt.Sprintf("selector:%d", si))
+		h.Tag(fmt.Sprintf("taken:%d", len(ids)))
+		if len(proc) > 0 {
+			h.Nontrivial()
+		}
+		h.End()
+	}
+	h.Close("EXHAUSTIVE: 3 nodes with labels in {none, k0=v0, k0=v1, k0=v0+k1=v0} x selector in {nil, empty, k0=v0, k0=v1, k1=v0, k0=v0+k1=v0} x every " +
+		"processedNodes set, through the real filterNodes; non-trivial = processedNodes not empty")
 }
